@@ -51,7 +51,11 @@ func setup4(args ...string) (handler.Handler4, error) {
 }
 
 func Handler4(req, resp *dhcpv4.DHCPv4) (*dhcpv4.DHCPv4, bool) {
-	v6pref := req.IsOptionRequested(dhcpv4.OptionIPv6OnlyPreferred)
+	// RFC 8925 section 3.1: only clients that explicitly list the option get it.
+	// IsOptionRequested treats an absent parameter request list as "everything
+	// requested", which would tell clients that know nothing about IPv6-only to
+	// go without an IPv4 address
+	v6pref := req.ParameterRequestList() != nil && req.IsOptionRequested(dhcpv4.OptionIPv6OnlyPreferred)
 	log.WithFields(logrus.Fields{
 		"mac":      req.ClientHWAddr.String(),
 		"ipv6only": v6pref,
